@@ -308,6 +308,27 @@ def drive(lines):
 _MODULE = None
 
 
+class _Null(logging.Handler):
+    def emit(self, record):
+        try:
+            self.format(record)          # build the message (that is where a faulty debug statement would fail)
+        except Exception:  # noqa
+            pass
+
+
+def _debug_logging(on):
+    lg = logging.getLogger('cardutil')
+    if on:
+        logging.disable(logging.NOTSET)
+        if not any(isinstance(h, _Null) for h in lg.handlers):
+            lg.addHandler(_Null())
+        lg.propagate = False
+        lg.setLevel(logging.DEBUG)
+    else:
+        lg.setLevel(logging.WARNING)
+        logging.disable(logging.CRITICAL)
+
+
 def _raised_in_implementation(ex):
     """True when the innermost frame of the traceback that belongs to cardutil or the harness is cardutil's"""
     import traceback
@@ -330,8 +351,14 @@ def _worker(args):
            'stats': {}, 'known': []}
     impl = []
     for case in chunk:
+        # every fifth case (chosen by content) runs with DEBUG logging switched on for cardutil, as the tools' --debug
+        # option does: code behind `isEnabledFor(DEBUG)` / debug f-strings must not change any result
+        key = hashlib.blake2b(json.dumps(case, sort_keys=True, default=str).encode(), digest_size=4).digest()
+        debug = bool(isinstance(case, dict) and case.get('debuglog')) or key[0] % 5 == 0
+        if debug:
+            _debug_logging(True)
         try:
-            r = with_watchdog(lambda: mod.impl_eval(case), getattr(mod, 'WATCHDOG_S', 5.0))
+            r = with_watchdog(lambda: mod.impl_eval(case), getattr(mod, 'WATCHDOG_S', 5.0) * (3 if debug else 1))
         except CaseTimeout:
             r = {'obs': 'timeout', 'violation': 'implementation did not terminate within the watchdog'}
         except Exception as ex:  # noqa
@@ -343,6 +370,12 @@ def _worker(args):
             r = {'obs': f'escaped:{type(ex).__name__}',
                  'violation': f'{type(ex).__name__} ({str(ex)[:120]}) escaped from cardutil in a scenario inside the '
                               f"property's domain"}
+        finally:
+            if debug:
+                _debug_logging(False)
+        if debug and isinstance(r, dict):
+            r.setdefault('tags', [])
+            r['tags'] = list(r['tags']) + ['debug-logging']
         impl.append(r)
     lines = []
     line_errors = {}
